@@ -238,7 +238,7 @@ var racePrograms = []raceProg{
 		}
 		w1, w2 := mk(), mk()
 		p := varmq.NewDistributedQueue[int](led.Q())
-		spawn(rep(150, func(i int) { p.Add(i) }), rep(150, func(i int) { p.Add(1000 + i, varmq.WithJobId(fmt.Sprint(i))) }),
+		spawn(rep(150, func(i int) { p.Add(i) }), rep(150, func(i int) { p.Add(1000+i, varmq.WithJobId(fmt.Sprint(i))) }),
 			rep(100, func(i int) { w1.NumPending(); w2.Metrics().Submitted(); p.NumPending() }),
 			func() {
 				for range w1.Errs() {
@@ -246,6 +246,46 @@ var racePrograms = []raceProg{
 			}, func() { time.Sleep(2 * time.Millisecond); w1.WaitAndStop() })
 		w2.WaitAndStop()
 		return 500
+	}},
+	{"metrics-reset", func(r *Rng) int {
+		// every method of Metrics, Reset included, while jobs are submitted, complete and fail
+		w := varmq.NewErrWorker(func(j varmq.Job[int]) error {
+			if j.Data()%5 == 0 {
+				return errBoom
+			}
+			return nil
+		}, 4)
+		q := w.BindQueue()
+		pq := w.BindPriorityQueue()
+		m := w.Metrics()
+		spawn(rep(300, func(i int) { q.Add(i) }), rep(300, func(i int) { pq.Add(i, i%3) }),
+			rep(40, func(i int) { q.AddAll([]varmq.Item[int]{{Data: i}, {Data: i + 1}}).Drain() }),
+			rep(120, func(i int) { m.Reset(); runtime.Gosched() }),
+			rep(300, func(i int) { m.Submitted(); m.Completed(); m.Successful(); m.Failed() }),
+			rep(100, func(i int) { w.Metrics().Completed(); w.NumPending(); w.NumProcessing() }))
+		w.WaitAndStop()
+		return 1200
+	}},
+	{"segment-boundary-backlog", func(r *Rng) int {
+		// a backlog that grows across the FIFO's segment boundaries (1024, 2560, ...) from several producers
+		// while it is read, purged and drained
+		w := varmq.NewWorker(func(j varmq.Job[int]) {}, 2)
+		q := w.BindQueue()
+		w.Pause()
+		n := []int{1100, 1300, 2700}[r.Intn(3)]
+		spawn(rep(n/4, func(i int) { q.Add(i) }), rep(n/4, func(i int) { q.Add(i) }), rep(n/4, func(i int) { q.Add(i) }),
+			rep(n/8, func(i int) { q.AddAll([]varmq.Item[int]{{Data: i}, {Data: i}}) }),
+			rep(200, func(i int) { q.NumPending(); w.NumPending() }),
+			func() {
+				for q.NumPending() < 1000 {
+					runtime.Gosched()
+				}
+				q.Purge()
+			})
+		spawn(rep(n/2, func(i int) { q.Add(i) }), rep(n/2, func(i int) { q.Add(i) }), func() { w.Resume() },
+			rep(20, func(i int) { q.NumPending() }))
+		w.WaitAndStop()
+		return 2*n + 300
 	}},
 	{"tune-under-load", func(r *Rng) int {
 		w := varmq.NewErrWorker(func(j varmq.Job[int]) error { runtime.Gosched(); return nil }, 4, varmq.WithMinIdleWorkerRatio(50))
@@ -333,6 +373,12 @@ func runC19(c *RunCtx) {
 	richPrograms(c, "restarts", 12, 100, richBias{MaxJobs: 8, Script: 8, Samplers: true, Conc: []int{1, 2, 3}, RestartHeavy: true}, o)
 	gatePrograms(c, "gate", 12, 100, gateBias{Adapters: true, MaxOps: 12, Expiry: 30, Tune: true, Life: true}, o)
 	reaperPrograms(c, 8, 60)
+	raceOpts = &o
+	tuneStormPrograms(c, 8, 60)
+	bindStormPrograms(c, 8, 60)
+	cyclesPrograms(c, 8, 60)
+	raceOpts = nil
+	richPrograms(c, "rich-ctx", 8, 60, richBias{MaxJobs: 6, Cancel: 10, Script: 6, Expiry: 30, RestartHeavy: true, Ctx: 100}, o)
 	for v := 0; v < c.Q(12, 100); v++ {
 		c.Program(fmt.Sprintf("batch/%d", v), func(p *Prog) {
 			cfg := drawBatch(p.Rng, false)
